@@ -18,17 +18,17 @@ func init() {
 
 type vpFakeGauge struct{ v int64 }
 
-func (g *vpFakeGauge) Desc() *prometheus.Desc              { return nil }
-func (g *vpFakeGauge) Write(*dto.Metric) error             { return nil }
-func (g *vpFakeGauge) Describe(chan<- *prometheus.Desc)    {}
-func (g *vpFakeGauge) Collect(chan<- prometheus.Metric)    {}
-func (g *vpFakeGauge) Set(x float64)                       { g.v = int64(x) }
-func (g *vpFakeGauge) Inc()                                { g.v++ }
-func (g *vpFakeGauge) Dec()                                { g.v-- }
-func (g *vpFakeGauge) Add(x float64)                       { g.v += int64(x) }
-func (g *vpFakeGauge) Sub(x float64)                       { g.v -= int64(x) }
-func (g *vpFakeGauge) SetToCurrentTime()                   {}
-func (g *vpFakeGauge) Observe(float64)                     {}
+func (g *vpFakeGauge) Desc() *prometheus.Desc           { return nil }
+func (g *vpFakeGauge) Write(*dto.Metric) error          { return nil }
+func (g *vpFakeGauge) Describe(chan<- *prometheus.Desc) {}
+func (g *vpFakeGauge) Collect(chan<- prometheus.Metric) {}
+func (g *vpFakeGauge) Set(x float64)                    { g.v = int64(x) }
+func (g *vpFakeGauge) Inc()                             { g.v++ }
+func (g *vpFakeGauge) Dec()                             { g.v-- }
+func (g *vpFakeGauge) Add(x float64)                    { g.v += int64(x) }
+func (g *vpFakeGauge) Sub(x float64)                    { g.v -= int64(x) }
+func (g *vpFakeGauge) SetToCurrentTime()                {}
+func (g *vpFakeGauge) Observe(float64)                  {}
 
 type vpFakeCounter struct{ v int64 }
 
